@@ -25,7 +25,7 @@ How to build and run the existing tests (takes a few minutes the first time; use
   for t in BasicTests BuildSystemTests CASTests CAPITests NinjaTests EvoTests CoreTests; do (cd {wt}/_build/bin && ./$t > /dev/null 2>&1; echo "$t rc=$?"); done
 All seven must exit 0 (83 test cases) both before and after your change. (Note the build defines NDEBUG: assert() is compiled out.)
 
-You must also write a DEMONSTRATION: a small stand-alone program or a new googletest case (put it under `{wt}/seed_demo/`, with a `run.sh` that builds and runs it against the libraries in `{wt}/_build/lib` — they are shared libraries: libllbuildCore.so, libllbuildBasic.so, libllbuildBuildSystem.so, libllbuildNinja.so, libllvmSupport.so, libllbuild.so; compile with `clang++-16 -std=c++14 -fno-rtti -I{wt}/include -I{wt}/lib/llvm/Support/include -L{wt}/_build/lib -Wl,-rpath,{wt}/_build/lib ...`; see `{wt}/unittests/` and `{wt}/examples/` for how the APIs are used; for tool-level properties a shell script driving `{wt}/_build/bin/llbuild` is fine) that exits 0 on the UNCHANGED tree and exits non-zero (printing what went wrong in terms of the property) with your change applied. Verify both yourself: run `run.sh` with the change stashed (`git stash` / `git stash pop`, rebuilding in between) and with it applied.
+You must also write a DEMONSTRATION: a small stand-alone program or a new googletest case (put it under `{wt}/seed_demo/`, with a `run.sh` that builds and runs it against the libraries in `{wt}/_build/lib` — they are static archives: link e.g. `-L{wt}/_build/lib -Wl,--start-group -lllbuildBuildSystem -lllbuildNinja -lllbuildCore -lllbuildBasic -lllvmSupport -Wl,--end-group -lLLVMDemangle -lsqlite3 -lcurses -lpthread -ldl`; compile with `clang++-16 -std=c++14 -fno-rtti -I{wt}/include -I{wt}/lib/llvm/Support/include`; see `{wt}/unittests/` and `{wt}/examples/` for how the APIs are used; for tool-level properties a shell script driving `{wt}/_build/bin/llbuild` is fine) that exits 0 on the UNCHANGED tree and exits non-zero (printing what went wrong in terms of the property) with your change applied. Verify both yourself: run `run.sh` with the change reverted (`git diff -- . ':!seed_demo' > /tmp/{sid}.p; git apply -R /tmp/{sid}.p; rebuild; run; git apply /tmp/{sid}.p; rebuild` - do NOT use `git stash`, the stash is shared with other worktrees) and with it applied.
 
 Deliverables, all inside `{wt}/seed_demo/`:
   - `patch.diff` : `git -C {wt} diff -- . ':!seed_demo'` of your change (source files only, not the demo),
